@@ -1,6 +1,7 @@
 from common import COMMON_ASSUME
 
 PROP = dict(
+    technique='property-based testing: capacity oracle - output allocated at exactly the capacity (ASan redzone / canary) plus prefix comparison',
     harness=['c13_capacity.c', 'vf_arr.c'],
     level_text=('generated-input search: valid encodings produced by the '
                 'library\'s own encoders for 19 capacity-taking decoder paths '
